@@ -62,6 +62,8 @@ def register(reg):
 
     reg.add(Contract(
         target=U + '_make_binary_structure', props=['C04'],
+        replay={'call': 'photutils.segmentation.utils:_make_binary_structure',
+                'args': ['ndim', 'connectivity'], 'const': {'ndim': 2}},
         params={'ndim': ('const', 2), 'connectivity': 'int'},
         cases={'connectivity': [4, 8]},
         raises=[],
